@@ -215,3 +215,14 @@ Theorem owner_options_keep_mode : forall v i ws mode f,
   /\ install_mode_words (lit "--group" :: v :: ws) mode (S f) = install_mode_words ws mode f.
 Proof. exact owner_options_keep_mode_proof. Qed.
 Print Assumptions owner_options_keep_mode.
+
+(* the rule on the spelling of a directory argument of doins -r / dodoc -r, which
+   [recursive_entries] (and so placement_is_pms_recursive) applies: trailing slashes are dropped
+   and the last component names the directory created below <dest>; when that component is "."
+   ("dir/.", "dir/sub/.", "./dir/./", ".") the contents go directly into <dest> *)
+Theorem recursive_name_rule : forall sl dest dm m d w,
+  (basename (rstrip_sl d) = dot -> tree_entries sl dest dm m d w = tree_walk sl dest dm m w)
+  /\ (good_name (basename (rstrip_sl d)) = true ->
+      tree_entries sl dest dm m d w = tree_walk sl (dest ++ [basename (rstrip_sl d)]) dm m w).
+Proof. exact recursive_name_rule_proof. Qed.
+Print Assumptions recursive_name_rule.
